@@ -3,7 +3,7 @@ from engines.symvc.discharge import run_spec
 
 
 def run(ctx):
-    ctx.assume("bounded in the number of elements: n = 1..4 (thorough: also 5, 6, 8), each n complete over all real intervals with xe - xb >= 1e-6 and densities >= 1e-6 (away from the function's 100*numeric_limits::min() guards); pow(r, n) with concrete n is the n-fold product; n up to 1e5 is NOT covered",
+    ctx.assume("bounded in the number of elements: n = 1..4 (thorough: also 5, 6), each n complete over all real intervals with xe - xb >= 1e-6 and densities >= 1e-6 (away from the function's 100*numeric_limits::min() guards); pow(r, n) with concrete n is the n-fold product; n up to 1e5 is NOT covered",
                "increasing intervals only (xb < xe); the exceptions on null length / null density / n <= 0 are not under contract",
                "on the near-uniform branch (|r-1| <= 1e-5) the last element is not in progression by design: the clause is stated for ratios outside that band")
     srcs = " ".join("%s/src/%s" % (ctx.repo, f) for f in ("Math/Discretization1D.cxx", "Math/MathException.cxx", "Exception/TFELException.cxx"))
